@@ -134,6 +134,15 @@ class _Timeout(Exception):
     pass
 
 
+# documented signatures of the factory functions (docs/api.rst): parameter order and defaults
+SIGNATURES = {'make': ('error', 'version', 'mode', 'mask', 'encoding', 'eci', 'micro', 'boost_error'),
+              'make_qr': ('error', 'version', 'mode', 'mask', 'encoding', 'eci', 'boost_error'),
+              'make_micro': ('error', 'version', 'mode', 'mask', 'encoding', 'boost_error'),
+              'make_sequence': ('error', 'version', 'mode', 'mask', 'encoding', 'boost_error', 'symbol_count')}
+DEFAULTS = {'error': None, 'version': None, 'mode': None, 'mask': None, 'encoding': None, 'eci': False, 'micro': None, 'boost_error': True,
+            'symbol_count': None}
+
+
 def _alarm(signum, frame):
     raise _Timeout()
 
@@ -146,7 +155,13 @@ def execute(c, time_limit=120):
     old = signal.signal(signal.SIGALRM, _alarm)
     signal.alarm(time_limit)
     try:
-        r = fn(content, **c['kw'])
+        conv = c.get('conv')
+        if conv == 'positional':        # the documented parameter order, everything given positionally
+            r = fn(content, *[c['kw'].get(k, DEFAULTS[k]) for k in SIGNATURES[c['api']]])
+        elif conv == 'explicit':        # every parameter by keyword, the omitted ones with their documented default (None given explicitly)
+            r = fn(content=content, **{k: c['kw'].get(k, DEFAULTS[k]) for k in SIGNATURES[c['api']]})
+        else:
+            r = fn(content, **c['kw'])
         if c['api'] == 'make_sequence':
             return {'status': 'ok'}, None, [project_symbol(q) for q in r]
         return {'status': 'ok'}, project_symbol(r), None
